@@ -33,7 +33,8 @@ ASSUMPTIONS = ["reorganisation energy by independent quadrature",
 def required_cells(tier):
     return {"variant:commuting": 8, "variant:canonical": 4,
             "variant:weak": 2, "variant:covariance": 4, "variant:history": 4,
-            "lowT": 3, "complexH": 6, "n_steps:2": 1, "n_steps>=20": 2,
+            "lowT": 3, "complexH": 6, "n_steps:2": 1, "n_steps>=20": 2, "n_steps>256": 2,
+            "energy-unit:1e-9": 2,
             "energy-offset:+20": 2, "energy-offset:-20": 2,
             "energy-offset:+35": 2, "preused_correlations": 10,
             "shared-parameters-across-temperatures": 2,
@@ -68,6 +69,8 @@ def run_case(case):
                "history", "commuting", "weak"][i % 7]
     d = int(rng.choice([2, 3, 4])) if variant == "commuting" else \
         int(rng.choice([2, 3]))
+    if variant == "commuting" and i % 35 == 0:
+        d = min(d, 3)        # the long imaginary-time runs (below)
     ct = gen.CUTOFFS[i % 3]
     wc = float(10 ** rng.uniform(-0.2, 0.6))
     tclass = ["mid", "low", "high", "mid"][(i // 7) % 4]
@@ -88,6 +91,12 @@ def run_case(case):
         # truncation error ~ n^3 epsrel) grow quickly with n_steps
         n_steps = int([2, 3, 5, 8, 12, 20, 16][(i // 3) % 7])
     epsrel = float(rng.choice([1e-8, 1e-9, 1e-10]))
+    long_run = bool(variant == "commuting" and i % 35 == 0 and d <= 3)
+    if long_run:
+        # more imaginary-time slices than any internal default length
+        # (the imaginary-time memory is periodic, nothing may be cut)
+        n_steps = [260, 270, 300, 264][(i // 35) % 4]
+        epsrel = 1e-9
     o = rng.normal(size=d)
     if i % 5 == 1 and d >= 3:
         o[1] = o[0]
@@ -101,6 +110,10 @@ def run_case(case):
     # imaginary-time network (measured: Hermiticity defect 8..30 epsrel at
     # n=20, 270..600 epsrel at n=50)
     bound = C_BOUND * epsrel * scale * max(1.0, (n_steps / 5.0) ** 2)
+    if long_run:
+        # a commuting model has bond dimension one: no truncation error
+        # accumulates, only the quadrature tolerance enters
+        bound = C_BOUND * epsrel * scale
     oper = np.diag(o).astype(complex)
     violations, cells, monitors, obs = [], ["variant:" + variant], {}, {}
     if tclass == "low":
@@ -109,6 +122,8 @@ def run_case(case):
         cells.append("n_steps:2")
     if n_steps >= 20:
         cells.append("n_steps>=20")
+    if long_run:
+        cells.append("n_steps>256")
     gp = oqupy.GibbsParameters(n_steps, epsrel)
 
     preused = bool((i // 7) % 2)
@@ -217,8 +232,18 @@ def run_case(case):
         h = gen.rand_herm(rng, d, 0.8)
         cells.append("complexH")
         p0 = dict(p, alpha=0.0)
+        if (i // 7) % 3 == 1:
+            # the same problem in another unit of energy (everything that
+            # carries an energy scaled by 1e-9): exp(-H/T)/Z is unchanged
+            unit = 1e-9
+            h = h * unit
+            p0 = dict(p0, cutoff=wc * unit, temperature=temp * unit)
+            temp_c = temp * unit
+            cells.append("energy-unit:1e-9")
+        else:
+            temp_c = temp
         state = gibbs(h, p0)
-        ref = models.gibbs_canonical(h, temp)
+        ref = models.gibbs_canonical(h, temp_c)
         err = float(np.abs(state - ref).max())
         obs["err"] = err
         monitors["states_compared"] = 1
